@@ -205,6 +205,10 @@ class SFTPFile(BufferedFile):
         ):
             while len(self._reqs):
                 req = self._reqs.popleft()
+                if req not in self.sftp._expecting:
+                    # the reply was already consumed while another request
+                    # was waiting for its own; it will never come again
+                    continue
                 t, msg = self.sftp._read_response(req)
                 if t != CMD_STATUS:
                     raise SFTPError("Expected status")
